@@ -11,3 +11,6 @@ open Biogo.Properties.C05
 #print axioms multi_revcomp_mirror_span
 #print axioms revcomp_involutive_multi
 #print axioms reverse_involutive_multi
+#print axioms initial_object_separated
+#print axioms untouched_object_unchanged
+#print axioms clone_deep
